@@ -221,11 +221,11 @@ Fixpoint expr_of_sexp (x : sexp) : option expr :=
 Definition vty_of_sexp (x : sexp) : option vty :=
   match x with
   | Atom a =>
-      if a =? "int" then Some TInt else if a =? "uint" then Some TUInt
-      else if a =? "dbl" then Some TDbl else if a =? "str" then Some TStr
-      else if a =? "bytes" then Some TBytes else if a =? "bool" then Some TBool
-      else if a =? "list" then Some TList else if a =? "dur" then Some TDur
-      else if a =? "ts" then Some TTs else if a =? "value" then Some TValue else None
+      if a =? "int" then Some TyInt else if a =? "uint" then Some TyUInt
+      else if a =? "dbl" then Some TyDbl else if a =? "str" then Some TyStr
+      else if a =? "bytes" then Some TyBytes else if a =? "bool" then Some TyBool
+      else if a =? "list" then Some TyList else if a =? "dur" then Some TyDur
+      else if a =? "ts" then Some TyTs else if a =? "value" then Some TyValue else None
   | _ => None
   end.
 
